@@ -149,8 +149,20 @@ def _seg_adjust(args):
     """segment.evaluate's documented preprocessing (the docstring examples of the structure metrics do the same)"""
     import mir_eval
     ri, rl, ei, el = args
+    if ri.size == 0 or ei.size == 0:          # the metric functions define a score for empty annotations: no adjustment possible
+        return ri, list(rl), ei, list(el)
     ri, rl = mir_eval.util.adjust_intervals(ri, labels=list(rl), t_min=0.0)
     ei, el = mir_eval.util.adjust_intervals(ei, labels=list(el), t_min=0.0, t_max=ri.max())
+    return ri, rl, ei, el
+
+
+def _hier_align(args):
+    """hierarchy.evaluate's preprocessing: both hierarchies start at 0 and the estimate is cropped / padded to the reference's end"""
+    from mir_eval import hierarchy as H
+    ri, rl, ei, el = args
+    _, t_end = H._hierarchy_bounds(ri)
+    ri, rl = H._align_intervals(ri, rl, t_min=0.0, t_max=None)
+    ei, el = H._align_intervals(ei, el, t_min=0.0, t_max=t_end)
     return ri, rl, ei, el
 
 
@@ -171,7 +183,7 @@ DERIVE = {
     'melody': {'ev': IDENT, 'cv': _melody_cv, 'v': _melody_v},
     'segment': {'ev': IDENT, 'bnd': lambda a: ((a[0], a[2]), {}), 'adj': lambda a: (_seg_adjust(a), {}),
                 'adjbnd': lambda a: ((_seg_adjust(a)[0], _seg_adjust(a)[2]), {})},
-    'hierarchy': {'ev': IDENT, 'iv': lambda a: ((a[0], a[2]), {})},
+    'hierarchy': {'ev': IDENT, 'iv': lambda a: ((_hier_align(a)[0], _hier_align(a)[2]), {}), 'lm': lambda a: (_hier_align(a), {})},
 }
 
 ENTRY = {
@@ -196,7 +208,7 @@ ENTRY = {
                ('raw_chroma_accuracy', 'cv'), ('overall_accuracy', 'cv'), ('evaluate', 'ev')],
     'segment': [('detection', 'adjbnd'), ('deviation', 'adjbnd'), ('pairwise', 'adj'), ('rand_index', 'adj'), ('ari', 'adj'),
                 ('mutual_information', 'adj'), ('nce', 'adj'), ('vmeasure', 'adj'), ('evaluate', 'ev')],
-    'hierarchy': [('tmeasure', 'iv'), ('lmeasure', 'ev'), ('evaluate', 'ev')],
+    'hierarchy': [('tmeasure', 'iv'), ('lmeasure', 'lm'), ('evaluate', 'ev')],
 }
 MODULES = sorted(ENTRY)
 
@@ -224,7 +236,7 @@ def _ev_shapes(lo=0.0):
         'est_runs_longer': lambda: (r.copy(), A([1.0, 2.0, 3.0, 4.0, 5.0, 6.0]) + lo),
         'est_at_ref_ends': lambda: (r.copy(), A([1.0 + lo, 4.0 + lo])),
         'time_zero': lambda: (A([0.0, 1.0, 2.0]), A([0.0, 1.0, 2.0])),
-        'at_max_time': lambda: (A([1.0, 30000.0]), A([2.0, 30000.0])),
+        'at_max_time': lambda: (A([29998.0, 29999.0, 30000.0]), A([29998.5, 29999.0, 30000.0])),   # close together: p_score correlates 100 Hz pulse trains
     }
 
 
@@ -423,6 +435,74 @@ SHAPES['separation'] = {
 }
 
 
+# metric-level degenerate inputs that evaluate()'s own preprocessing cannot produce (the metric's docstring defines the score)
+DIRECT = {
+    'melody': [
+        ('empty_arrays', 'voicing_recall', lambda: (E1(), E1())),
+        ('empty_arrays', 'voicing_false_alarm', lambda: (E1(), E1())),
+        ('empty_arrays', 'voicing_measures', lambda: (E1(), E1())),
+        ('empty_arrays', 'raw_pitch_accuracy', lambda: (E1(), E1(), E1(), E1())),
+        ('empty_arrays', 'raw_chroma_accuracy', lambda: (E1(), E1(), E1(), E1())),
+        ('empty_arrays', 'overall_accuracy', lambda: (E1(), E1(), E1(), E1())),
+        ('single_frame_arrays', 'voicing_measures', lambda: (A([1.0]), A([0.0]))),
+        ('single_frame_arrays', 'overall_accuracy', lambda: (A([1.0]), A([100.0]), A([0.0]), A([0.0]))),
+        ('continuous_voicing', 'overall_accuracy', lambda: (A([1.0, 0.5, 0.0]), A([100.0, 200.0, 0.0]), A([0.25, 1.0, 0.75]), A([100.0, 250.0, 300.0]))),
+        ('voicing_bounds', 'voicing_measures', lambda: (A([1.0, 0.0]), A([0.0, 1.0]))),
+    ],
+    'chord': [
+        ('empty_label_lists', c, lambda: ([], [])) for c in CHORD_CMP
+    ] + [
+        ('single_label', c, lambda: (['C'], ['C'])) for c in CHORD_CMP
+    ] + [
+        ('empty_comparisons', 'weighted_accuracy', lambda: (E1(), E1())),
+        ('zero_weights', 'weighted_accuracy', lambda: (A([1.0, 0.0]), A([0.0, 0.0]))),
+        ('all_uncomparable', 'weighted_accuracy', lambda: (A([-1.0, -1.0]), A([1.0, 2.0]))),
+        ('single_interval', 'seg', lambda: (_iv((0, 4)), _iv((0, 4)))),
+        ('touching_intervals', 'directional_hamming_distance', lambda: (_iv((0, 2), (2, 4)), _iv((0, 1), (1, 4)))),
+        ('gapped_intervals', 'seg', lambda: (_iv((0, 1), (2, 4)), _iv((0, 2), (3, 4)))),
+        ('est_longer_than_ref', 'overseg', lambda: (_iv((0, 2), (2, 4)), _iv((0, 3), (3, 6)))),
+        ('est_earlier_than_ref', 'underseg', lambda: (_iv((2, 3), (3, 4)), _iv((0, 3), (3, 4)))),
+    ],
+    'segment': [
+        ('empty_trimmed', 'detection', lambda: (_iv((0, 4)), _iv((0, 4)))),
+        ('single_segment_trim', 'deviation', lambda: (_iv((0, 4)), _iv((0, 2), (2, 4)))),
+    ],
+    'hierarchy': [
+        ('window_equals_frame_size', 'tmeasure', lambda: (_H2(), _H2())),
+        ('window_none', 'tmeasure', lambda: (_H2(), _H2())),
+    ],
+    'transcription': [
+        ('empty_both', 'onset_precision_recall_f1', lambda: (E2(), E2())),
+        ('empty_both', 'offset_precision_recall_f1', lambda: (E2(), E2())),
+    ],
+    'alignment': [
+        ('duration_equals_last_timestamp', 'percentage_correct_segments', lambda: (A([1.0, 2.0, 3.0]), A([1.0, 2.5, 3.0]))),
+        ('single_with_duration', 'percentage_correct_segments', lambda: (A([2.0]), A([2.5]))),
+    ],
+    'tempo': [
+        ('tol_0', 'detection', lambda: (A([60.0, 120.0]), 0.5, A([60.0, 121.0]))),
+        ('tol_1', 'detection', lambda: (A([60.0, 120.0]), 0.5, A([60.0, 121.0]))),
+    ],
+}
+DIRECT_KW = {('segment', 'empty_trimmed'): {'trim': True}, ('segment', 'single_segment_trim'): {'trim': True},
+             ('hierarchy', 'window_equals_frame_size'): {'window': 0.5, 'frame_size': 0.5}, ('hierarchy', 'window_none'): {'window': None},
+             ('alignment', 'duration_equals_last_timestamp'): {'duration': 3.0}, ('alignment', 'single_with_duration'): {'duration': 4.0},
+             ('tempo', 'tol_0'): {'tol': 0.0}, ('tempo', 'tol_1'): {'tol': 1.0}}
+
+
+def check_direct(module):
+    M = mod(module)
+    out = []
+    for sname, fname, mk in DIRECT.get(module, []):
+        a = mk()
+        kw = DIRECT_KW.get((module, sname), {})
+        r = run(getattr(M, fname), _copy(tuple(a)), kw)
+        if r[0] == 'exc':
+            out.append(finding(module, 'shape:' + sname, fname, 'valid input: the call returns a result and does not raise',
+                               call_text(module, fname, a, kw), r[1] + ': ' + r[2], 'raised on input satisfying the documented conventions'))
+    return out
+
+
 def random_valid(module, rng):
     return G.TASKS[module](rng)
 
@@ -555,7 +635,7 @@ def iv_overlap(x, rng):
     if len(x) < 2:
         return None
     x = x.copy()
-    x[0, 1] = x[0, 1] + (x[1, 1] - x[1, 0]) / 2.0     # first interval runs into the second
+    x[0, 1] = x[1, 0] + (x[1, 1] - x[1, 0]) / 2.0     # first interval runs into the second
     return x
 
 
@@ -857,13 +937,16 @@ def hier_faults(group, iref, iest):
 
 
 FAULTS['hierarchy'] = (
-    hier_faults('iv', 0, 1) + hier_faults('ev', 0, 2) + [
+    hier_faults('iv', 0, 1) + hier_faults('lm', 0, 2) + hier_faults('ev', 0, 2) + [
         ('frame_size_above_window', 'iv', with_kw(frame_size=1.0, window=0.5), 'ValueError', ['tmeasure']),
         ('frame_size_above_window', 'ev', with_kw(frame_size=1.0, window=0.5), 'ValueError', ['evaluate']),
         ('window_zero', 'iv', with_kw(window=0.0), 'ValueError', ['tmeasure']),
         ('ref_fewer_labels', 'ev', setarg(1, lambda x, r: [list(y) for y in x[:-1]] + [list(x[-1][:-1])]), 'ValueError', None),
         ('est_more_labels', 'ev', setarg(3, lambda x, r: [list(y) for y in x[:-1]] + [list(x[-1]) + ['z']]), 'ValueError', None),
         ('ref_fewer_label_levels', 'ev', setarg(1, lambda x, r: [list(y) for y in x[:-1]] if len(x) > 1 else None), 'ValueError', None),
+        ('ref_fewer_labels', 'lm', setarg(1, lambda x, r: [list(y) for y in x[:-1]] + [list(x[-1][:-1])]), 'ValueError', None),
+        ('est_more_labels', 'lm', setarg(3, lambda x, r: [list(y) for y in x[:-1]] + [list(x[-1]) + ['z']]), 'ValueError', None),
+        ('ref_fewer_label_levels', 'lm', setarg(1, lambda x, r: [list(y) for y in x[:-1]] if len(x) > 1 else None), 'ValueError', None),
         ('est_different_depth', 'iv', setarg(1, lambda x, r: [y.copy() for y in x] + [x[-1].copy()]), None, None),   # allowed: no fault
     ])
 FAULTS['hierarchy'] = [f for f in FAULTS['hierarchy'] if f[3] is not None]
@@ -997,6 +1080,7 @@ def search(rng, n, include_known=False, modules=None, collapse=True):
             seen.add(key)
             out.append(f)
     for m in (modules or MODULES):
+        add(check_direct(m))
         for sname, mk in sorted(SHAPES.get(m, {}).items()):
             add(check_valid(m, mk(), shape=sname))
         k = n if m != 'separation' else max(1, n // 20)
